@@ -107,7 +107,7 @@ def spaces(tier):
     mid1 = mid + size1(mid)
     return [("s1xs1", full1, full1, True),
             ("s2xs1", size2(mid + ["3"], mid, funcs=True),
-             sorted(set(mid1 + probe + ["-3", "-i", "-2"])), False),
+             sorted(set(probe + ["-3", "-i", "-2", "i + j", "2 * i", "i * i", "n - i", "mod(i, 2)", "min(i, j)", "max(i, 2)"])), False),
             ("s2solve", size2(red + ["3"], red, funcs=False), red1, True),
             ("sign",) + sign_space() + (True,)]
 
@@ -303,7 +303,13 @@ def check_pair(tag, lidx, ridx, do_solve):
     viol = []
     claims = 0
     for func, want_equal in (("equal", True), ("never_equal", False)):
-        claim = getattr(sym, func)(e_l, e_r)
+        try:
+            claim = getattr(sym, func)(e_l, e_r)
+        except Exception:  # pylint: disable=broad-except
+            # an exception (e.g. SymPy's 'Modulo by zero' on a constant
+            # sub-expression) is not a claim; counted, not judged
+            _W["claim_exc"] = _W.get("claim_exc", 0) + 1
+            continue
         if claim is not True:
             continue
         claims += 1
